@@ -459,6 +459,11 @@ class _KafkaBrokerClient(ClientFactory):
             d.addCallback(cbDelayed)
 
         def cbDelayed(result):
+            if not self.requests:
+                # Everything that was waiting has been cancelled meanwhile:
+                # the next request will connect
+                self.connector = None
+                return
             tryConnect()
 
         self._failures = 0
